@@ -26,7 +26,7 @@ from vf.gen import reactions as RG
 from vf.ref import units as U
 
 ID = 'C04'
-N = {'quick': 5000, 'thorough': 60000}
+N = {'quick': 3500, 'thorough': 60000}
 NT_RULE = ('case = one object (mode / StatMech +-references +-misc models / Nasa / Nasa9 / Shomate gas|surface '
            '+-coverage model / Reaction|ChemkinReaction|SurfaceReaction) + T (scalar, array for the empirical '
            'classes, documented default for energies) + an option set + 5-6 unit strings (all 42 in the directed '
@@ -339,7 +339,7 @@ def gen_case(rng, tier, kind=None, units=None, force_opts=None, **fix):
         lo, hi = S.T_range(sp)
         tk = fix.get('T_kind') or rng.choice(['scalar', 'scalar', 'array'])
         if tk == 'array':
-            spec['T'] = sorted(S.rnd(rng, lo, hi, 2) for _ in range(rng.randint(2, 5)))
+            spec['T'] = sorted(S.rnd(rng, lo, hi, 2) for _ in range(rng.choice([1, 2, 3, 3, 4, 5])))
         else:
             edges = [lo, hi] + ([sp['T_mid']] if kind == 'nasa' else []) + \
                     ([n['T_high'] for n in sp['nasas'][:-1]] if kind == 'nasa9' else [])
